@@ -13,6 +13,12 @@ CLAIMS = {
              note='SC only; reader spin-wait loops beyond U iterations excluded (blocking by design for slots==1)', ref='4 C14'),
  'C15': dict(text='Bounded, solver-decided: marked_ptr round trip for every mark width 0..32 and three upper/lower splits over all 64-bit pointer/mark values (one query); symbolic sequences of guard operations vs a reference model for hazard_pointer, hazard_eras, epoch based and lock_free_ref_count (all twelve configurations in thorough).',
              note='sequence length 3 (quick) / 4 (thorough); single thread; the concurrent snapshot clause is exercised by C01 scenarios', ref='4 C15'),
+ 'C05': dict(text='Bounded, solver-decided: symbolic push/pop sequences from several ring rotations vs a bounded FIFO reference (vyukov: 4 ops, nikolaev: 2-3 ops); producer/consumer interleavings with conservation, order and legality of empty/full.',
+             note='capacity 2 (4 in thorough); 2 threads; vyukov strong operations spin while another operation is in flight (beyond U spins outside the bound); SC only', ref='4 C05'),
+ 'C06': dict(text='Bounded, solver-decided for kirsch_bounded_kfifo_queue (and the unbounded queue with hazard pointers in thorough): the random start index is a solver variable; symbolic sequences vs a k-FIFO reference; producer/consumer interleavings incl. the wrapped head/tail state.',
+             note='k in {1,2}, 2-3 segments; 2 threads, K=2-3; products above 2^16 are outside the bound (finding F11 is documented in DESIGN.md, not decided by a check)', ref='4 C06'),
+ 'C13': dict(text='Bounded, solver-decided: writer with back-to-back updates vs 1-2 readers, all context switch positions symbolic (K=2..4): no mixed snapshot, monotone reads, both instances updated exactly once.',
+             note='std::mutex as blocking flag; wait loops beyond U spins outside the bound; SC only', ref='4 C13'),
  'C18': dict(text='Bounded, solver-decided: symbolic guard-operation sequences against slot accounting invariants for static/dynamic hazard_pointer and hazard_eras incl. exhaustion (exceptions are modelled) and slot reuse.',
              note='K in {1,2,3}; 3 guards; sequence length 2-4; protection = published slot (representation invariant), scans honouring slots is C01', ref='4 C18'),
 }
